@@ -25,6 +25,38 @@ CHECKS = {
         "identity by canonical path+property values; query sessions cannot "
         "exist in the mock (ExecQuery unimplemented)",
         "DESIGN.md 4-C14", "pullsrv"),
+    "C10": (
+        "TLA+ reference keyed map with set-valued status codes (RepoCore); "
+        "code-shaped validation-order + dict/heap machine refinement in TLC; "
+        "TLC-simulated and seeded call histories replayed on the mock with "
+        "client-side mutation, traces validated by TLC",
+        "TLC proves that the code-shaped machine (validation order of the "
+        "dispatcher, dict store keyed by path objects) refines the reference "
+        "map for all call sequences over 2 namespaces x 3 classes x 2 keys, "
+        "and that the legacy key-aliasing variant does not; call sequences "
+        "simulated by TLC and seeded histories (valid and invalid arguments, "
+        "case/order/int-type randomised, every passed or returned object "
+        "mutated afterwards) run on the real FakedWBEMConnection and every "
+        "result, status code and full dump is judged by TLC.",
+        "fixed 3-class schema with value tokens (two values, NULL, unset); "
+        "absent property == NULL; dump taken through EnumerateInstances",
+        "DESIGN.md 4-C10", "repocore"),
+    "C11": (
+        "TLA+ check/write pipeline model of every repository-changing call "
+        "explored by TLC for all scenarios; requirement machine 'raised => "
+        "content unchanged' evaluated by TLC on recorded histories",
+        "TLC explores, for every operation family and every set of <=2 "
+        "simultaneously holding rejection reasons, the code-shaped pipeline "
+        "of checks and writes and proves that a raising call leaves the "
+        "repository unchanged (and that the two legacy orders do not); seeded "
+        "histories of valid and rejected calls of all listed families "
+        "(single objects for every rejection reason, MOF and object batches "
+        "whose k-th element is invalid, multi-namespace associations, the "
+        "namespace provider) run on the real mock, the complete content after "
+        "every call is compared by TLC.",
+        "content compared as canonical digests via the public store API; "
+        "compile_schema_classes not driven (shares compile_mof_file's path)",
+        "DESIGN.md 4-C11", "mockatomic"),
 }
 
 NOT_YET = {}
